@@ -205,18 +205,24 @@ class SimulatorWorkerThread(Thread):
                     try:
                         self._job.fire_timed(self._job.simulator_time,
                             Simulator.START_EVENT, None)
-                        self._job._run_state = RunState.STARTED
+                        with self._job._state_lock:
+                            # do not overwrite a stop request that arrived
+                            # before the run thread got going
+                            if self._job._run_state == RunState.STARTING:
+                                self._job._run_state = RunState.STARTED
                         self._job._run()
                         self._job.fire_timed(self._job.simulator_time,
                             Simulator.STOP_EVENT, None)
-                        self._job._run_state = RunState.STOPPED
+                        with self._job._state_lock:
+                            self._job._run_state = RunState.STOPPED
                     except Exception as e:
                         print("Simulator run interrupted by exception:")
                         print(str(e))
                         traceback.print_exc()
                 if self._job._replication_state == ReplicationState.ENDING:
-                    self._job._replication_state = ReplicationState.ENDED
-                    self._job._run_state = RunState.ENDED
+                    with self._job._state_lock:
+                        self._job._replication_state = ReplicationState.ENDED
+                        self._job._run_state = RunState.ENDED
                     self._job.fire_timed(self._job.simulator_time,
                         ReplicationInterface.END_REPLICATION_EVENT, None)
                     self._finalized = True
@@ -255,6 +261,9 @@ class Simulator(EventProducer, SimulatorInterface, Generic[TIME]):
         self._error_strategy = ErrorStrategy.WARN_AND_PAUSE
         self._error_log_level = logging.ERROR
         self._runflag: bool = False
+        # guards the run_state transitions that the calling thread and the
+        # run thread can both make (stop request versus start / natural end)
+        self._state_lock = threading.Lock()
         
     @property
     def name(self) -> str:
@@ -435,7 +444,11 @@ class Simulator(EventProducer, SimulatorInterface, Generic[TIME]):
 
     def _stop_impl(self):
         """Implementation of the stop behavior."""
-        self._run_state = RunState.STOPPING
+        with self._state_lock:
+            # the run thread may have stopped (or ended the replication) by
+            # itself since the caller checked the state
+            if self.is_starting_or_running():
+                self._run_state = RunState.STOPPING
         # wait till the worker thread is waiting or ready (end replication)
         msec: int = int(time.time() * 1000)
         while (not self.__worker.is_waiting() 
